@@ -517,12 +517,19 @@ def abi_mode(rec, item):
             rec.oblig("mode none makes no random draw", "holds" if not draws else "violated", len(draws), 0, desc)
         elif eff == "Poisson":
             pois = [(k, e) for k, e in enumerate(I.events) if e[0] == "poisson"]
+            copies = [e for e in I.events if e[0] == "rng_copy"]
+            rec.oblig("mode Poisson: the entries are drawn INDEPENDENTLY: every draw advances the one generator seeded with the script's seed (no draw is made from a copy of it)",
+                      "holds" if not copies else "violated", [e[1] for e in copies][:3], 0, desc)
+            if copies:
+                rec.violation("init-poisson-generator-copied", "Poisson mode: draws are made from a COPY of the generator (%s): the original never advances, so every entry is drawn from the same "
+                              "generator state and entries of equal mean are identical (%s)" % (copies[0][1], desc), {"structure": desc, "where": copies[0][1]}, replayed=replay_poisson_independent())
             for s in range(ns):
                 for i in range(nc):
                     ent = I.toreal(data[s * nc + i])
                     # the entry must be a Poisson draw whose recorded mean is X(s,i) (0 when the mean is 0)
                     cands = [z3.And(I.toreal(e[1]) == X(s, i), ent == z3.If(X(s, i) > 0, z3.ToReal(e[2]), 0)) for k, e in pois]
-                    claim = z3.Or(*cands) if cands else (ent == 0)
+                    # (an entry whose amount is 0 may also be set to 0 without any draw)
+                    claim = z3.Or(*(cands + [z3.And(X(s, i) <= 0, ent == 0)]))
                     claim = z3.And(claim, ent >= 0, z3.Implies(X(s, i) == 0, ent == 0))
                     _prove(rec, I, "mode Poisson: record 0 entry (%d,%d) is a Poisson draw with mean = the input entry (zero stays zero)" % (s, i), claim, desc,
                            lambda m, s=s, i=i: rec.violation("init-poisson-layout", "Poisson mode: the t=0 entry of (species %d, cell %d) is not drawn with that entry's real amount as mean (%s)" % (s, i, desc),
@@ -570,6 +577,37 @@ def replay_poisson_layout():
                     if any((v == 0 and g != 0) or abs(g - v) > 6 * (v ** 0.5) + 1 for v, g in zip(st, x0)):
                         bad += 1
         return bad > 0
+    except Exception:
+        return False
+
+
+_RPI = []
+
+
+def replay_poisson_independent():
+    if not _RPI:
+        _RPI.append(_replay_poisson_independent())
+    return _RPI[0]
+
+
+def _replay_poisson_independent():
+    """Real build: Poisson mode on a state whose entries are all 50: with independent draws the chance that all 6 entries of the
+    t=0 record coincide is below 1e-6 per seed; it must not happen for three seeds in a row on grid and graph."""
+    try:
+        from ..enginelegs import real_run
+        for sd in (("grid", 3, 1, 1, 1), ("graph", "triangle")):
+            system = catalogue.build("none", sd)
+            n = 2 * system.space.size()
+            system.state = [50.0] * n
+            same = 0
+            for seed in range(1, 4):
+                script = make_script(system, "tauleap", 0.01, policy="on_iteration", isp="Poisson", seed=seed)
+                data, _ = real_run(script, "tauleap", 0)
+                if len(set(data[:n])) == 1:
+                    same += 1
+            if same == 3:
+                return True
+        return False
     except Exception:
         return False
 
